@@ -12,6 +12,7 @@ ID = "C17"
 LEVEL = "exploration"
 QUICK_SHARDS = 4
 MIN_NONTRIVIAL = 50
+FUZZ_RUNS = 240000     # thorough tier: atheris executions (all children)
 RULE = (
     "Recipe (all four classes, attributes, descriptors crossing prospective "
     "cuts, placeholders, unspecified parity, roles, changes) x subset S of "
@@ -263,5 +264,5 @@ def run(ctx):
             labs.append("multi-component")
         ctx.note(case, nt, labs)
 
-    ctx.hyp("c17", S.tapes(1500).map(gen), check, ctx.scale(6000, 250000),
+    ctx.hyp("c17", S.mapped(1500, gen), check, ctx.scale(6000, 250000),
             shrinker=shrink)
